@@ -66,7 +66,7 @@ Menu == <<
   InCase(Leaf("ce", "a", Ty("empty")), "ch:ca"),                                                        \* 41
   InCase(Cont("cc", "a", FALSE, <<Leaf("cx", "a", Ty("string"))>>), "ch:cb"),                           \* 42
   InCase(List("cli", "a", "k", TRUE, <<Leaf("k", "a", Ty("string")), LeafList("cw", "a", Ty("int8"), FALSE)>>), "ch:cb"),   \* 43
-  InCase(LeafList("cll", "a", Ty("string"), FALSE), "ch:cll")                                           \* 44  shorthand case
+  InCase(LeafList("cll", "a", Ty("uint8"), FALSE), "ch:cll")                                             \* 44  shorthand case
 >>
 ChoiceNames == <<"ch">>
 CaseTags == <<"ch:ca", "ch:cb", "ch:cll">>
@@ -331,17 +331,21 @@ DocMut(v) ==
 
 \* Values of the wrong shape (RFC 7951 section 5 prescribes an object for a container and for a list entry, an
 \* array for a list and for a leaf-list, a scalar for a leaf): at every position of a document - the document
-\* itself, every member value, every array element, so every kind of schema node the schema has - every kind
-\* of JSON value: the scalars, the empty object and array, an object with an unknown member, the value that
-\* stands there and its first component (an entry where the list is expected, a member's value where the object
-\* is), each of them as it is, inside one and two arrays, in an array beside a scalar and beside an object,
-\* twice in an array, and inside an object under the position's own member name.
-ShapeKinds(orig) == {JStr("x"), JNum("5"), JTrue, JNull, JObj(<< >>), JArr(<< >>, TRUE), JObj(<<Mem("zz", JNum("1"))>>), orig}
-                    \cup (IF orig.t = "arr" /\ Len(orig.a) > 0 THEN {orig.a[1]} ELSE {})
-                    \cup (IF orig.t = "obj" /\ Len(orig.m) > 0 THEN {orig.m[1].v} ELSE {})
-Wraps(k, nm) == {k, JArr(<<k>>, TRUE), JArr(<<JArr(<<k>>, TRUE)>>, TRUE), JArr(<<k, JStr("x")>>, TRUE),
-                 JArr(<<JObj(<< >>), k>>, TRUE), JArr(<<k, k>>, TRUE), JObj(<<Mem(nm, k)>>)}
-Shapes(orig, nm) == UNION {Wraps(k, nm) : k \in ShapeKinds(orig)} \ {orig}
+\* itself, every member value, every array element, i.e. every kind of schema node the schema has, at every
+\* depth it has - every kind of JSON value: the four kinds of scalars; the empty object and the empty array; an
+\* object with an unknown member; an object holding what stands there under the position's own name; arrays of
+\* scalars, of objects, of arrays, of null, mixing objects and scalars; what stands there inside one and two
+\* arrays and in an array beside a scalar (so an array of objects where a container is expected, an array of arrays
+\* where a list or leaf-list is, an array of scalars where a leaf is); its first component in its place (an entry
+\* where the list is expected, a member's value where the object is).
+Shapes(orig, nm) ==
+  ( {JStr("x"), JNum("5"), JTrue, JNull, JObj(<< >>), JArr(<< >>, TRUE),
+     JObj(<<Mem("zz", JNum("1"))>>), JObj(<<Mem(nm, orig)>>),
+     JArr(<<JNum("5"), JStr("x")>>, TRUE), JArr(<<JObj(<< >>)>>, TRUE), JArr(<<JArr(<<JNum("5")>>, TRUE)>>, TRUE), JArr(<<JNull>>, TRUE),
+     JArr(<<JObj(<< >>), JNum("5")>>, TRUE),
+     JArr(<<orig>>, TRUE), JArr(<<JArr(<<orig>>, TRUE)>>, TRUE), JArr(<<orig, JNum("5")>>, TRUE), JArr(<<JStr("x"), orig>>, TRUE)}
+    \cup (IF orig.t = "arr" /\ Len(orig.a) > 0 THEN {orig.a[1]} ELSE {})
+    \cup (IF orig.t = "obj" /\ Len(orig.m) > 0 THEN {orig.m[1].v} ELSE {}) ) \ {orig}
 RECURSIVE ShapeMut(_, _)
 ShapeMut(v, nm) ==
   Shapes(v, nm)
@@ -424,6 +428,11 @@ XNsMut(e) ==
           ELSE {[e EXCEPT !.kids[i] = x] : x \in XNsMut(e.kids[i])}
           : i \in 1..Len(e.kids) }
 XNsMutants(el) == {XToks(d) : d \in XNsMut(el)}
+\* the namespace grid is for the items up to SizedFullMax (every node kind, identityref in every position) and for
+\* the later ones whose types have an identityref inside a union
+RECURSIVE HasIdUnion(_)
+HasIdUnion(sn) == (sn.k \in {"leaf", "ll"} /\ sn.ty.b = "union" /\ IdsOf(sn.ty) # {}) \/ \E i \in 1..Len(sn.kids) : HasIdUnion(sn.kids[i])
+NsGrid(S) == \A i \in S : i <= SizedFullMax \/ HasIdUnion(Menu[i])
 \* the full tree of a schema with the longest XML encoding
 BigTree(S) == CHOOSE t \in FullTrees(S) : \A u \in FullTrees(S) : Len(XToks(EncX(Schema(S), u))) <= Len(XToks(EncX(Schema(S), t)))
 
